@@ -174,7 +174,9 @@ func c09BigHex(xs []*big.Int) []string {
 	return out
 }
 
-func (c *c09TBLSCtx) valid(i int) c09Entry { return c09Entry{c09Cp(c.part[i]), fmt.Sprintf("valid%d", i)} }
+func (c *c09TBLSCtx) valid(i int) c09Entry {
+	return c09Entry{c09Cp(c.part[i]), fmt.Sprintf("valid%d", i)}
+}
 
 // insert places extra entries at random positions of base.
 func c09Insert(rng *gen.Rng, base []c09Entry, extra []c09Entry) []c09Entry {
